@@ -630,7 +630,7 @@ def replay_parallel(ck, name, recs, nproc=12):
 
 
 # ------------------------------------------------------------------ binding B
-def plan_events(rng, n_each):
+def plan_events(rng, n_each, full=False):
     """the calls of binding B: (op + arguments) without observations"""
     P = []
 
@@ -794,7 +794,8 @@ def plan_events(rng, n_each):
         hl = lst(homo, 1, 6)
         sh = list(hl)
         rng.shuffle(sh)
-        for op in ("median_low", "median_high", "min", "max") + (() if flavour == 2 else ("mean", "median")):
+        stats = ["median_low", "median_high", "min", "max"] + ([] if flavour == 2 else ["mean", "median"])
+        for op in rng.sample(stats, 3):
             P.append({"op": op, "a": hl})
             if sh != hl:
                 P.append({"op": op, "a": sh})
@@ -804,13 +805,11 @@ def plan_events(rng, n_each):
             if sh != hl:
                 P.append({"op": "sum", "a": sh})
             x = dict(rng.choice(homo))                                  # the laws that hold to the last bit
-            P.append({"op": "sum", "a": [x]})
-            P.append({"op": "sum", "a": [x, dict(x)]})
-            P.append({"op": "prod", "a": [x]})
-            P.append({"op": "mean", "a": [x, dict(x)]})
-        if rnd % 4 == 0:                                               # a random rung of the exponent ladder
+            for op, a in rng.sample([("sum", [x]), ("sum", [x, dict(x)]), ("prod", [x]), ("mean", [x, dict(x)])], 2):
+                P.append({"op": op, "a": a})
+        if rnd % 8 == 0:                                               # a random rung of the exponent ladder
             P.append({"op": "powx", "a": rng.choice([-1, 1]) * rng.randint(2, 20),
-                      "k": rng.choice([97, 200, 333, 500, 1000, 1500, 2000])})
+                      "k": rng.choice([97, 200, 333, 500, 800])})
     for a in ([], [{"k": "int", "v": 1}], [{"k": "int", "v": 1}, {"k": "dec", "v": 2}, {"k": "str", "v": 1}]):
         for n in (1, 3):                       # the empty list and lists that fit into one piece
             P.append({"op": "chunks", "a": a, "n": n})
@@ -844,13 +843,21 @@ def plan_events(rng, n_each):
         tl = [mk_str(t) for t in a]
         for op in ("min", "max", "median_low", "median_high", "unique", "grouped"):
             P.append({"op": op, "a": tl})
-    # the exponent ladder of pow: small bases, exponents up to 2^16; the bases 0, 1, -1 up to 2^70
-    for a in (2, -2, 3, -3, 7, 10, -10, 12):
-        for k in (500, 1000, 1023, 1024, 1025, 2047, 4095, 4096, 4097, 5000, 8192, 10000):
+    # the exponent ladder of pow: small bases, exponents up to 2^16; the bases 0, 1, -1 up to 2^70.  (TLC
+    # multiplies out the rungs whose estimated cost is below Lib_Trace!PowExactSteps - 2^5000, 3^5000, 7^2047
+    # ... - and validates the longer ones through LibOps!PowPlausible.)
+    ladder = {2: (500, 1000, 1024, 2047, 4095, 4096, 4097, 5000, 8192, 10000, 1 << 15, 1 << 16),
+              -2: (1000, 4097, (1 << 16) + 1), 3: (4097, 5000, 10000, 20000), -3: (4097,), 7: (500, 2000, 4097, 10000),
+              10: (500, 4096, 4097, 10000, 1 << 16), -10: (4097,), 12: (1000, 4097),
+              1 << 64: (1000,), -(1 << 64): (1001,), (1 << 80) - 1: (500,), 10 ** 20: (700,), 65537: (3000,)}
+    if full:
+        for a in (2, -2, 3, -3, 7, 10, -10, 12):
+            ladder[a] = (500, 1000, 1023, 1024, 1025, 2047, 2048, 4095, 4096, 4097, 5000, 8191, 8192, 10000,
+                         1 << 15, 1 << 16)
+        ladder[1 << 64] = (1000, 4100)
+    for a, ks in ladder.items():
+        for k in ks:
             P.append({"op": "powx", "a": a, "k": k})
-    for a, k in ((2, 1 << 15), (2, (1 << 15) + 1), (2, 1 << 16), (-2, (1 << 16) + 1), (10, 1 << 16), (3, 20000),
-                 (1 << 64, 1000), (-(1 << 64), 1001), ((1 << 80) - 1, 500), (10 ** 20, 700), (65537, 3000)):
-        P.append({"op": "powx", "a": a, "k": k})
     for a in (0, 1, -1):
         for k in (0, 1, 4097, 1 << 16, 1 << 70, (1 << 70) + 1, 10 ** 20, (1 << 80) - 1):
             P.append({"op": "powx", "a": a, "k": k})
@@ -963,45 +970,86 @@ def observe(impl, p):
     return e, src, o
 
 
-def validate(run, events, srcs, outs, plans):
-    d = tempfile.mkdtemp(prefix="c19-")
-    path = os.path.join(d, "trace.ndjson")
-    try:
-        with open(path, "w") as f:
-            for e in events:
-                f.write(json.dumps(e) + "\n")
-        res = run_tlc("Lib_Trace", workers=1, env={"TRACE_FILE": path}, timeout=3000)
-    finally:
+class Validation:
+    """Lib_Trace on the recorded events.  The events are independent of each other (the trace spec keeps no
+    state between them), so a long trace is cut into parts that are validated by TLC processes running side by
+    side; the parts are dealt round-robin so that the expensive events (long powers) spread over all of them."""
+
+    def __init__(self, events, parts=1):
+        self.events = events
+        parts = max(1, min(parts, len(events) // 500 or 1))
+        self.index = [list(range(i, len(events), parts)) for i in range(parts)]      # part -> global positions
+        self.results = [None] * parts
+        self.errors = []
+        self.threads = [threading.Thread(target=self._part, args=(i,)) for i in range(parts)]
+        for t in self.threads:
+            t.start()
+
+    def _part(self, i):
+        d = tempfile.mkdtemp(prefix="c19-")
+        path = os.path.join(d, "trace.ndjson")
         try:
-            os.remove(path)
-            os.rmdir(d)
-        except OSError:
-            pass
-    run.add_tlc(res, "Lib_Trace validation of recorded calls")
-    done = res.records("DONE")
-    if not done or done[-1]["n"] != len(events):
-        raise MachineryError("trace validation did not consume the whole trace")
-    for b in res.records("BAD"):
-        k = b["l"] - 1
+            with open(path, "w") as f:
+                for k in self.index[i]:
+                    f.write(json.dumps(self.events[k]) + "\n")
+            self.results[i] = run_tlc("Lib_Trace", workers=1, env={"TRACE_FILE": path}, timeout=3000)
+        except Exception as ex:  # noqa: BLE001
+            self.errors.append(ex)
+        finally:
+            try:
+                os.remove(path)
+                os.rmdir(d)
+            except OSError:
+                pass
+
+    def join(self):
+        """-> {tag: [(global position, record)]}"""
+        for t in self.threads:
+            t.join()
+        if self.errors:
+            raise self.errors[0]
+        out = {"BAD": [], "DRIFT": [], "NOTE": []}
+        for i, res in enumerate(self.results):
+            done = res.records("DONE")
+            if not done or done[-1]["n"] != len(self.index[i]):
+                raise MachineryError("trace validation did not consume the whole trace")
+            for tag in out:
+                seen = set()
+                for b in res.records(tag):
+                    key = (b["l"], b["why"])
+                    if key not in seen:
+                        seen.add(key)
+                        out[tag].append((self.index[i][b["l"] - 1], b))
+        for tag in out:
+            out[tag].sort(key=lambda x: x[0])
+        return out
+
+
+def validate(run, events, srcs, outs, plans, started=None):
+    val = started or Validation(events)
+    found = val.join()
+    for i, res in enumerate(val.results):
+        run.add_tlc(res, "Lib_Trace validation of recorded calls" +
+                    (f" (part {i + 1} of {len(val.results)})" if len(val.results) > 1 else ""))
+    bad = set()
+    for k, b in found["BAD"]:
         if b["why"] == "unknown-op":
             raise MachineryError("trace spec does not know op " + events[k]["op"])
+        bad.add(k)
         cat = category(events[k]["op"])
         if cat == "definition" and not STRICT_STAT_VALUES and outs[k][0] != "host":
             run.drift("stat-value-vs-reference", {"src": srcs[k], "got": show(outs[k])})
             continue
         run.violation(srcs[k], f"{cat}: Lib_Trace rejects the recorded result {show(outs[k])}",
                       {"kind": "trace-call", "plan": plans[k][0], "legacy": plans[k][1]})
-    for b in res.records("DRIFT"):
-        k = b["l"] - 1
+    for k, b in found["DRIFT"]:
         run.drift("shift-count>=32", {"src": srcs[k], "got": show(outs[k])})
     # powers too long for TLC to multiply out were validated through necessary conditions (residues modulo a
     # dozen primes, sign, length bracket: LibOps!PowPlausible); these are compared with the host's exact
     # power as well (the one comparison of this check that the model cannot make itself within the time of a tier)
-    bad = {b["l"] for b in res.records("BAD")}
     nnec = 0
-    for b in res.records("NOTE"):
-        k = b["l"] - 1
-        if b["why"] != "pow-necessary-conditions" or b["l"] in bad:
+    for k, b in found["NOTE"]:
+        if b["why"] != "pow-necessary-conditions" or k in bad:
             continue
         nnec += 1
         p, o = plans[k][0], outs[k]
@@ -1009,8 +1057,8 @@ def validate(run, events, srcs, outs, plans):
             run.violation(srcs[k], f"exact-int: the result {show(o)} has the residues, sign and length of the power "
                                    "but is not the power",
                           {"kind": "trace-call", "plan": p, "legacy": plans[k][1]})
-    res.pow_by_necessary_conditions = nnec
-    return res
+    val.pow_by_necessary_conditions = nnec
+    return val
 
 
 def category(op):
@@ -1027,9 +1075,8 @@ def category(op):
     return "textbook"
 
 
-def record_and_validate(run, plans, envs=ENVS):
-    """the planned calls are run and recorded in every environment (the legacy ones keyed
-    'legacy: ' + call) and validated as one trace"""
+def record(plans, envs=ENVS):
+    """the planned calls are run and recorded in every environment (the legacy ones keyed 'legacy: ' + call)"""
     events, srcs, outs, plist, ncalls = [], [], [], [], 0
     for legacy in envs:
         impl = Impl(legacy)
@@ -1040,8 +1087,14 @@ def record_and_validate(run, plans, envs=ENVS):
             outs.append(o)
             plist.append((p, legacy))
         ncalls += impl.n
-    res = validate(run, events, srcs, outs, plist)
-    return ncalls, events, srcs, res
+    return ncalls, events, srcs, outs, plist
+
+
+def record_and_validate(run, plans, envs=ENVS):
+    """... and validated as one trace"""
+    ncalls, events, srcs, outs, plist = record(plans, envs)
+    val = validate(run, events, srcs, outs, plist)
+    return ncalls, events, srcs, val
 
 
 def probe_drift(run, impl):
@@ -1094,8 +1147,28 @@ def run(run):
     th.start()
 
     cfg = "Lib_quick" if quick else "Lib_thorough"
-    # (no -coverage: it tripled the CPU time of this exporting run; the actions are counted from the records)
-    res = run_tlc("Lib", cfg, workers=10, coverage=False, timeout=3000)
+    lt = {}
+
+    def lib_model():
+        try:
+            # (no -coverage: it tripled the CPU time of this exporting run; the actions are counted from the records)
+            lt["res"] = run_tlc("Lib", cfg, workers=10, coverage=False, timeout=3000)
+        except Exception as ex:  # noqa: BLE001
+            lt["err"] = ex
+
+    th2 = threading.Thread(target=lib_model)
+    th2.start()
+
+    # binding B is recorded while TLC explores the model, and validated (three TLC processes) while binding A
+    # is replayed
+    plans = plan_events(rng, 200 if quick else 1500, full=not quick)
+    ncalls, events, srcs, outs, plist = record(plans)
+    started = Validation(events, parts=3)
+
+    th2.join()
+    if "err" in lt:
+        raise lt["err"]
+    res = lt["res"]
     res.coverage = actions_taken(res)
     never = [a for a, n in res.coverage.items() if n == 0]
     if never:
@@ -1133,8 +1206,7 @@ def run(run):
     ncases += len(bseen)
     run.sample({"BITS": recs[len(recs) // 2]}, limit=12)
 
-    plans = plan_events(rng, 200 if quick else 1500)
-    ncalls, events, srcs, tres = record_and_validate(run, plans)
+    tres = validate(run, events, srcs, outs, plist, started)
     run.sample({"TRACE": events[:3]}, limit=12)
     probe_drift(run, ck.impl)
 
